@@ -125,6 +125,7 @@ class Ctx:
 
 def do_fire(ctx, comp, name, prio, mode=None, chans=('c',), log=True):
     e = Event.create(evname(name))
+    e.args = [e]                  # the firing code hands a reference to the event along as its argument
     if name in ctx.fail:
         e.failure = True
     if mode == 's':
@@ -200,8 +201,8 @@ def run_body(ctx, comp, body, eid, hid, event, name=None):
             raise ValueError(a)
 
 
-def make_fn(ctx, hid, body, name):
-    def fn(self, event, *args, **kw):
+def make_fn(ctx, hid, body, name, noev=False):
+    def run(self, event):
         eid = getattr(event, 'c02_id', None)
         ctx.depth += 1
         ctx.log.append([1, eid, hid, ctx.depth])
@@ -210,6 +211,15 @@ def make_fn(ctx, hid, body, name):
         finally:
             ctx.log.append([3, eid, hid])
             ctx.depth -= 1
+
+    if noev:
+        # a handler whose signature does not declare `event`: the dispatcher calls it with the event's arguments
+        # only; it reaches the event through the reference the firing code put into those arguments (do_fire)
+        def fn(self, ref=None, *args, **kw):
+            return run(self, ref)
+    else:
+        def fn(self, event, *args, **kw):
+            return run(self, event)
     fn.__name__ = 'h%d' % hid
     fn.c02_hid = hid
     return fn
@@ -219,11 +229,12 @@ def build(ctx, case):
     """-> (root, child, [detached components]).  Handlers are spread over root (comp 0) and a registered child."""
     members = [{'channel': ch} for ch in case['chan']]
     for name, hs in case['handlers']:
-        for hid, prio, comp, body, hch in hs:
+        for h in hs:
+            hid, prio, comp, body, hch = h[:5]
             kw = {'priority': prio}
             if hch is not None:
                 kw['channel'] = hch
-            members[comp]['h%d' % hid] = handler(evname(name), **kw)(make_fn(ctx, hid, body, name))
+            members[comp]['h%d' % hid] = handler(evname(name), **kw)(make_fn(ctx, hid, body, name, len(h) > 5 and bool(h[5])))
 
     def observer(self, event, *args, **kw):
         eid = getattr(event, 'c02_id', None)
@@ -284,7 +295,7 @@ def est_events(case):
     def cnt(n):
         if n not in memo:
             memo[n] = 1 + sum((cnt(a[1]) if a[0] == 'f' else 2 if a[0] == 'r' else 0)
-                              for (_, _, _, body, _) in table.get(n, []) for a in body)
+                              for h in table.get(n, []) for a in h[3])
         return memo[n]
     tot = 0
     for a in case['prog']:
@@ -530,7 +541,8 @@ class C02(Prop):
                             body.insert(rng.randint(0, len(body) - 1), end)
                         else:
                             body.append(end)
-                    hs.append([hid, hp, rng.randint(0, 2 if multi else 1), body, hchan()])
+                    # every third handler does not declare `event` (it stops / hands on the event through the reference)
+                    hs.append([hid, hp, rng.randint(0, 2 if multi else 1), body, hchan(), rng.random() < 0.35])
                     hid += 1
                 handlers.append([name, hs])
             if raises:      # handlers of the reserved events: they fire nothing (termination) and do not raise
@@ -666,6 +678,8 @@ class C02(Prop):
         st['cancelled_fires'] += sum(1 for e in log if e[0] == 11)
         st['prestopped_fires'] += sum(1 for e in log if e[0] == 12)
         st['drained_events'] += drained
+        noev = {h[0] for _, hs in c['handlers'] for h in hs if len(h) > 5 and h[5]}
+        st['stops_by_handlers_without_event_param'] = st.get('stops_by_handlers_without_event_param', 0) + sum(1 for e in log if e[0] == 2 and e[2] in noev)
         st['multichannel_fires'] = st.get('multichannel_fires', 0) + sum(1 for e in log if e[0] in (0, 11, 12) and len(e[4]) > 1)
         st['multichannel_cases'] = st.get('multichannel_cases', 0) + (1 if len(set(c['chan'])) > 1 else 0)
         if not c['obs']:
